@@ -14,7 +14,7 @@ for s in $seeds; do
   git apply "$p" || { echo "$s: DOES NOT APPLY"; continue; }
   own=$(python3 -c "import json;print(json.load(open('$VROOT/seeded/$s/meta.json'))['property'])")
   line=""; ownhit=no
-  for c in C01 C02 C03 C04 C05 C06 C07 C08 C09 C10 C11 C12 C13 C14 C15 C16 C17 C18 C19 C20; do
+  for c in ${SEED_CHECKS:-C01 C02 C03 C04 C05 C06 C07 C08 C09 C10 C11 C12 C13 C14 C15 C16 C17 C18 C19 C20}; do
     out=$(LDAP3_REPO=$WT "$VROOT/check" $c 2>&1)
     echo "$out" | grep -E 'BUILD-ERROR|Traceback' | head -2
     n=$(echo "$out" | grep -c '^VIOLATION')
